@@ -44,7 +44,8 @@ def encoders(ctx):
     out = []
     for c in sorted(base.all_subclasses(), key=lambda c: c.name):
         for name, f in sorted(c.methods.items()):
-            if name in ("apply", "apply_to_backend_request") or "__apply" in name or "__add_weight" in name:
+            takes_request = "backend_request" in f.params and name not in ("__init__",)
+            if name in ("apply", "apply_to_backend_request") or "__apply" in name or "__add_weight" in name or takes_request:
                 if any(d == "abstractmethod" for d in f.decorators):
                     continue
                 out.append((c, f))
@@ -210,7 +211,7 @@ def rule_emit(ctx):
             continue
         ctx.check(total > 0, R, c, "%s emits" % c.name, "%s contributes requests or clauses" % c.name,
                   "%s.apply adds nothing to the backend request: the constraint is accepted and silently ignored by the formula-based samplers" % c.name)
-    ctx.require(n_src >= 18, "only %d request / clause sources found in the encoders" % n_src)
+    ctx.require(n_src >= 16, "only %d request / clause sources found in the encoders" % n_src)
 
 
 def rule_fresh(ctx):
@@ -370,8 +371,8 @@ def check(ctx):
     control(ctx, mod, "solver told a smaller variable count", lambda s: variants.in_function(s, "sweetpea/_internal/sampling_strategy/iterate_sat.py", "IterateSATGen.sample", "backend_request.fresh - 1", "backend_request.fresh - 2"), "C01.pipeline")
     ctx.min_instances("C01.install", 8)
     ctx.min_instances("C01.apply", 7)
-    ctx.min_instances("C01.emit", 30)
-    ctx.min_instances("C01.fresh", 20)
+    ctx.min_instances("C01.emit", 26)
+    ctx.min_instances("C01.fresh", 16)
     ctx.min_instances("C01.pipeline", 8)
     ctx.min_instances("C01.gate", 5)
     ctx.min_instances("C01.crossing", 14)
